@@ -131,6 +131,26 @@ CHECKS = {
 
 NOT_YET = {}
 
+# sentences appended to the level text (obligations added while the checks were being strengthened, DESIGN.md 8.5)
+EXTRA = {
+    "C01": " Also: single / batch / Dask agreement with means up to 1e6 standard deviations from the origin, 8..64 features, and 1e3..7e4 rows in one call.",
+    "C02": " Also: the reduction in front of the M-step (module-level m_step on per-block statistics and a one-step Dask fit with the same blocks) consumes the sum over every block; 1e3..7e4 rows in one call.",
+    "C03": " Also: integer-typed training rows; a fit that is still iterating two steps after the predicted stop is reported through the harness's iteration budget instead of being waited for.",
+    "C04": " Also: the number of iterations (counted M-steps) is compared; blocks of 1e3..7e4 rows with the k-means criterion checked against the definition.",
+    "C05": " Also: integer-typed adaptation data.",
+    "C06": " Also: data 1e3..1e8 spreads away from the origin (tolerances follow the rounding of differences), 1e3..7e4 rows, and an iteration budget for fits that do not stop.",
+    "C07": " Also: a machine that has enrolled, is then re-trained / edited in place / re-pointed to another UBM and enrols again behaves like a fresh machine with the same parameters.",
+    "C10": " Also: integer-typed sigma / T.",
+    "C11": " Also: features in any unit (standard deviations 1e-6..1e3).",
+    "C12": " Also: the same bag object trained from twice in one process with two different labellings.",
+    "C13": " Also: 16..48 features with floor-level or huge variances (products of variances outside the double range).",
+    "C14": " Also: data up to 1e7 spreads away from the origin; integer-typed data.",
+    "C15": " Also: fixed-ratio and Reynolds MAP with a prior component of tiny-positive or zero responsibility mass.",
+    "C16": " Also: ISV/JFA machines whose UBM is trained at fit time; WCCN on Dask input in the row-order relation.",
+    "C19": " Also: features in any unit (variances down to 1e-12) and i-vector statistics with a component that has no data anywhere.",
+    "C20": " Also: a machine that has answered, has its centroids edited in place / re-assigned / re-trained and answers again; 1e3..7e4 rows in one call.",
+}
+
 
 def main():
     props = [json.loads(l) for l in open(os.path.join(HERE, "properties.jsonl"))]
@@ -140,6 +160,7 @@ def main():
         pid = p["id"]
         if pid in CHECKS:
             tech, text, note, ref = CHECKS[pid]
+            text = text + EXTRA.get(pid, "")
             checks.append(
                 {
                     "property_id": pid,
